@@ -8,6 +8,11 @@ import (
 
 func callMethod(db *gorm.DB, fc func(value interface{}, tx *gorm.DB) bool) {
 	tx := db.Session(&gorm.Session{NewDB: true})
+	if rv := db.Statement.ReflectValue; rv.Kind() == reflect.Struct && rv.CanAddr() {
+		// the address carries the hooks of both receiver kinds; the value would hide the pointer-receiver ones
+		fc(rv.Addr().Interface(), tx)
+		return
+	}
 	if called := fc(db.Statement.ReflectValue.Interface(), tx); !called {
 		switch db.Statement.ReflectValue.Kind() {
 		case reflect.Slice, reflect.Array:
